@@ -732,6 +732,7 @@ def _digits(col, crate, base10, wb, wc, wr, sfx):
         elif ty in UNSIGNED_OF:
             I = util.analyse(b)
             neg_ok = pos_ok = False
+            v_neg, v_pos = [], []
             for st in I.final_states:
                 evs = st.event_list()
                 minus = [k for k, e in enumerate(evs) if _is(e, wc) and e.args[1] == mk_int(45)]
@@ -750,9 +751,12 @@ def _digits(col, crate, base10, wb, wc, wr, sfx):
                         pass
                 okm = len(mag) == 1 and len(ua) == 1 and evs[mag[0]].extra["argvals"][1] == ua[0].res and (ua[0].fn.get("path") or "").startswith("core::num::<impl %s>" % ty)
                 if isneg is True:
-                    neg_ok = okm and len(minus) == 1 and minus[0] < mag[0]
+                    v_neg.append(bool(okm and len(minus) == 1 and minus[0] < mag[0]))
                 elif isneg is False:
-                    pos_ok = okm and not minus
+                    v_pos.append(bool(okm and not minus))
+                else:
+                    v_neg.append(False)   # a path that never decides the sign
+            neg_ok, pos_ok = bool(v_neg) and all(v_neg), bool(v_pos) and all(v_pos)
             key = "%s|sign-and-magnitude" % fk(b)
             if neg_ok and pos_ok:
                 col.ok("V7" + sfx, b.loc(), key, "'-' iff self < 0, then write(&self.unsigned_abs())")
